@@ -63,7 +63,8 @@ def parseCfg (forSpec : Bool) (j : Json) : Cfg :=
   { entityId := strD j "entity_id", signResponse := cfgBool forSpec (cfgVal j "sign_response"),
     signAssertion := cfgBool forSpec (cfgVal j "sign_assertion"),
     signingAlg := str? j "signing_algorithm", digestAlg := str? j "digest_algorithm",
-    policy := parsePolicy j "policy", domain := str? j "domain", ras := parsePairs j "ras" }
+    policy := parsePolicy j "policy", domain := str? j "domain", ras := parsePairs j "ras",
+    encCerts := strList j "enc_sps", unmet := strList j "unmet_sps" }
 
 def parseArgs (j : Json) : Args Ava :=
   { inResponseTo := strD j "in_response_to", destination := strD j "destination", spEntityId := strD j "sp_entity_id",
@@ -79,7 +80,8 @@ def parseArgs (j : Json) : Args Ava :=
     signAlg := str? j "sign_alg", digestAlg := str? j "digest_alg", sessionNooa := int? j "session_nooa",
     releasePolicy := (obj? j "release_policy").map fun p => parsePolicy p "policy",
     stored := (arrD j "stored").map parseNameId, now := intD j "now",
-    freshId := "FRESH", freshSession := "SESSION", attrs := parseAva j "attrs" }
+    freshId := "FRESH", freshSession := "SESSION", attrs := parseAva j "attrs",
+    pefim := boolD j "pefim", bestEffort := bool? j "best_effort", storeFails := boolD j "store_fails" }
 
 def parseSide (j : Json) : C09.SpSide :=
   let b := strD j "binding" "post"
@@ -118,19 +120,32 @@ def nameIdToJson : Option NameId → Json
   | some n => Json.mkObj [("format", optStr n.format), ("spnq", optStr n.spNameQualifier), ("nq", optStr n.nameQualifier),
                           ("text", n.text)]
 
+def confsToJson (cs : List Conf) : Json :=
+  jarr (cs.map fun c => Json.mkObj [("method", methodName c.method), ("recipient", optStr c.recipient),
+        ("irt", optStr c.irt), ("nb", optInt c.nb), ("nooa", optInt c.nooa), ("address", optStr c.address)])
+
+def authnToJson (xs : List AuthnOut) : Json :=
+  jarr (xs.map fun s => Json.mkObj [("class_ref", optStr s.classRef), ("authn_auth", optStr s.authnAuth),
+        ("session_nooa", optInt s.sessionNooa), ("session_index", optStr s.sessionIndex), ("decl", s.decl)])
+
+def adviceToJson (x : AdviceAssertion Ava) : Json :=
+  Json.mkObj [("issuer", optStr x.issuer), ("sig", sigToJson x.sig), ("name_id", nameIdToJson x.nameId),
+    ("confs", confsToJson x.confs), ("cond_nb", optInt x.condNb), ("cond_nooa", optInt x.condNooa),
+    ("audiences", jarr (x.audiences.map jstrs)), ("authn", authnToJson x.authn),
+    ("attrs", avaToJson x.attrs), ("advice", jarr []), ("encrypted", x.encrypted)]
+
 def assertionToJson (x : IssuedAssertion Ava) : Json :=
   Json.mkObj [("issuer", optStr x.issuer), ("sig", sigToJson x.sig), ("name_id", nameIdToJson x.nameId),
-    ("confs", jarr (x.confs.map fun c => Json.mkObj [("method", methodName c.method), ("recipient", optStr c.recipient),
-        ("irt", optStr c.irt), ("nb", optInt c.nb), ("nooa", optInt c.nooa), ("address", optStr c.address)])),
+    ("confs", confsToJson x.confs),
     ("cond_nb", optInt x.condNb), ("cond_nooa", optInt x.condNooa),
     ("audiences", jarr (x.audiences.map jstrs)),
-    ("authn", jarr (x.authn.map fun s => Json.mkObj [("class_ref", optStr s.classRef), ("authn_auth", optStr s.authnAuth),
-        ("session_nooa", optInt s.sessionNooa), ("session_index", optStr s.sessionIndex), ("decl", s.decl)])),
-    ("attrs", avaToJson x.attrs)]
+    ("authn", authnToJson x.authn),
+    ("attrs", avaToJson x.attrs), ("advice", jarr (x.advice.map adviceToJson))]
 
 def refusalName : Refusal → String
   | .sigAlgNotAllowed => "sigAlgNotAllowed" | .digestAlgNotAllowed => "digestAlgNotAllowed" | .emailNoDomain => "emailNoDomain"
   | .fargMalformed => "fargMalformed" | .hokNoKeyInfo => "hokNoKeyInfo" | .ecpSignedNotElement => "ecpSignedNotElement"
+  | .adviceNotElement => "adviceNotElement"
 
 def issuedToJson : Except Refusal (Issued Ava) → Json
   | .error e => Json.mkObj [("r", "refused"), ("why", refusalName e)]
@@ -139,17 +154,31 @@ def issuedToJson : Except Refusal (Issued Ava) → Json
       ("status_top", r.statusTop), ("status_second", optStr r.statusSecond),
       ("assertions", jarr (r.assertions.map assertionToJson))]
 
-def parseAssertion (j : Json) : IssuedAssertion Ava :=
-  { issuer := str? j "issuer", sig := parseSig j "sig", nameId := (obj? j "name_id").map parseNameId,
-    confs := (arrD j "confs").map fun c =>
+def parseConfs (j : Json) : List Conf :=
+  (arrD j "confs").map fun c =>
       { method := parseMethod (strD c "method"), recipient := str? c "recipient", irt := str? c "irt",
-        nb := int? c "nb", nooa := int? c "nooa", address := str? c "address" },
+        nb := int? c "nb", nooa := int? c "nooa", address := str? c "address" }
+
+def parseAuthnOut (j : Json) : List AuthnOut :=
+  (arrD j "authn").map fun s =>
+      { classRef := str? s "class_ref", authnAuth := str? s "authn_auth", sessionNooa := int? s "session_nooa",
+        sessionIndex := str? s "session_index", decl := boolD s "decl" }
+
+/-- an advice element the reader could not open (or that is no assertion) parses to an assertion of nobody -/
+def parseAdvice (j : Json) : AdviceAssertion Ava :=
+  { encrypted := boolD j "encrypted", issuer := str? j "issuer", sig := parseSig j "sig",
+    nameId := (obj? j "name_id").map parseNameId, confs := parseConfs j,
     condNb := int? j "cond_nb", condNooa := int? j "cond_nooa",
     audiences := (arrD j "audiences").map fun r => asStrList (asArr r),
-    authn := (arrD j "authn").map fun s =>
-      { classRef := str? s "class_ref", authnAuth := str? s "authn_auth", sessionNooa := int? s "session_nooa",
-        sessionIndex := str? s "session_index", decl := boolD s "decl" },
-    attrs := parseAva j "attrs" }
+    authn := parseAuthnOut j, attrs := parseAva j "attrs" }
+
+def parseAssertion (j : Json) : IssuedAssertion Ava :=
+  { issuer := str? j "issuer", sig := parseSig j "sig", nameId := (obj? j "name_id").map parseNameId,
+    confs := parseConfs j,
+    condNb := int? j "cond_nb", condNooa := int? j "cond_nooa",
+    audiences := (arrD j "audiences").map fun r => asStrList (asArr r),
+    authn := parseAuthnOut j,
+    attrs := parseAva j "attrs", advice := (arrD j "advice").map parseAdvice }
 
 def parseIssued (j : Json) : Except Refusal (Issued Ava) :=
   if strD j "r" == "ok" then
@@ -172,6 +201,7 @@ def errName : Sp.Err → String
   | .bearerUnknownIrt => "bearerUnknownIrt" | .cameFrom => "cameFrom" | .eitherUnsigned => "eitherUnsigned"
   | .unknownBinding => "unknownBinding"
   | .timeForm => "timeForm"
+  | .idUndecryptable => "idUndecryptable"
 
 def spToJson (o : Sp.Outcome) (ava : Option Ava) : Json :=
   match o with
@@ -244,7 +274,7 @@ def handle (line : Json) : Json :=
   let aIn := parseArgs ((obj? c "args").getD Json.null)
   let a := forward entry aIn                 -- the sibling entry points do not forward every parameter
   let conv : Conv Ava Ava := { fromLocal := id, toLocal := id }
-  let m := createVia entry D cfg aIn
+  let m := issueVia ([] : Ava) entry D cfg aIn
   let implIdp := parseIssued ((obj? impl "idp").getD Json.null)
   let policy := a.releasePolicy.getD cfg.policy
   -- the SP stage
@@ -252,19 +282,20 @@ def handle (line : Json) : Json :=
   let side := sideJ.map parseSide
   let mSp : Option (Sp.Outcome × Option Ava) :=
     match side, m with
-    | some s, .ok r => some (endToEnd conv s.cfg s.env s.trusts r)
+    | some s, .ok r => some (endToEndAdv conv s.cfg s.env s.trusts r)
     | _, _ => none
   let implSp : Option (Sp.Outcome × Option Ava) := (obj? impl "sp").map parseSp
   let e2e (out : Except Refusal (Issued Ava)) (sp : Option (Sp.Outcome × Option Ava)) : Bool :=
     match sideJ, side with
-    | some j, some s => C09.specE2E D cfgS a (sideForSpec j s) a.attrs out sp
+    | some j, some s => C09.specE2EX D cfgS a (sideForSpec j s) a.attrs out sp
     | _, _ => true
-  let specImpl := C09.specScoping D cfgS a implIdp && e2e implIdp implSp
-  let specModel := C09.specScoping D cfgS a m && e2e m mSp
-  let why := C09.whyScoping D cfgS a implIdp ++ (if e2e implIdp implSp then [] else ["end-to-end"])
+  let specImpl := C09.specScopingX D cfgS a implIdp && e2e implIdp implSp
+  let specModel := C09.specScopingX D cfgS a m && e2e m mSp
+  let why := C09.whyScopingX D cfgS a implIdp ++ (if e2e implIdp implSp then [] else ["end-to-end"])
   let path := match m with
     | .error e => "refused/" ++ refusalName e
-    | .ok r => "ok/nameid:" ++ nameIdBranch cfg a ++ "/sig:" ++ sigBranch r
+    | .ok r => if r.assertions.isEmpty then "error-response/sig:" ++ sigBranch r
+               else (if a.pefim then "ok-pefim/" else "ok/") ++ "nameid:" ++ nameIdBranch cfg a ++ "/sig:" ++ sigBranch r
   let spBranch : String := match mSp with
     | none => "-"
     | some (.identity _, _) => "identity"
@@ -305,6 +336,11 @@ def handle (line : Json) : Json :=
                  | none => "default"
                  | some st => if st.top == C09.successUri then "success" else "error"),
       ("session-nooa", if a.sessionNooa.isSome then "given" else "absent"),
+      ("profile", if a.pefim then (if cfg.encCerts.contains a.spEntityId then "pefim/advice-encrypted" else "pefim/advice-clear")
+                  else "plain"),
+      ("requirement", ((if cfg.unmet.contains a.spEntityId then "unmet" else "none") ++ "/best-effort=" ++
+                      (match a.bestEffort with | none => "absent" | some b => toString b) : String)),
+      ("store", if a.storeFails then (if a.nameId.isSome then "unreadable(name_id given)" else "unreadable") else "readable"),
       ("sp", spBranch), ("e2e-pre", pre)]),
     ("spec_model", specModel), ("spec_impl", specImpl), ("why", jstrs why)]
 
